@@ -39,8 +39,7 @@ RULE = ("small valid structural map requests (<= 3 functions, sizes <= 3, storag
 ASSUMPTIONS = ["sequential semantics (parallel=False); crash points of worker processes are not injected",
                "file-system operations are atomic and durable in program order (no page-cache / fsync modelling); "
                "rmtree is one event",
-               "pickle/cloudpickle/json round trips are the identity on complete files and fail on torn files",
-               "internal axes come after the mapped axes of an output"]
+               "pickle/cloudpickle/json round trips are the identity on complete files and fail on torn files"]
 TRUSTED = ["Model/CrashFS.v compiles the run of Model/MapResume.v into file-system events by hand",
            "the tracer in harness/props/c05.py (monkey-patched os.mkdir / io.open / os.replace / shutil.rmtree in the child)"]
 
@@ -432,7 +431,7 @@ def emit_case(c) -> str:
 def gen_small_req(rng, storage=None, max_funcs=2, max_size=2):
     while True:
         r = mapgen.gen_request(rng, max_funcs=max_funcs, max_size=max_size, max_rank=2, storages=("file_array",))
-        if not c06mod.internal_after_mapped(r) or mapgen.request_size(r) > 8:
+        if mapgen.request_size(r) > 8:
             continue
         r["storage"] = storage or rng.choice(["file_array", "dict"])
         return c06mod.sorted_like_pipeline(r)
